@@ -11,12 +11,18 @@ CHECKS = {
  "C03": ("model_checking",
          "Both engines are run on every case; both traces are validated against the same functional specification, and Lockstep.tla compares the two recordings line by line (result codes, atoms, raw monitor callbacks, configurations, final data).",
          "5 C03", "TLC lock-step comparison of two recorded traces (Lockstep) + trace validation"),
+ "C04": ("translation_validation",
+         "Every chart of the families is transpiled by ChartToC (in-process), the emitted machine is compiled with the sizing macros the generator emits (thorough: also with ASan+UBSan) together with a scaffold providing all callbacks, run on every event word, and every uscxml_step() is compared by TLC with the TLA+ specification iterated to the next micro-step (dequeued/raised/sent events, log output incl. entry/exit order, configuration, final data); the uscxml_ctx sits between guard areas checked after every step.",
+         "5 C04", "trace validation of emitted C against the TLA+ spec (Trace_Step, coarse step) + sanitizer side condition"),
  "C12": ("exploration",
          "TLC enumerates all descriptor lists up to the bound with the verdict of the TLA+ relation NameMatch for every event name up to the bound; the table is replayed through uscxml::nameMatch and the matcher shipped in test-gen-c.cpp. Exhaustive in the bound, seeded random beyond.",
          "5 C12", "TLC-generated oracle table (MC_NameMatch) replayed through the implementation"),
  "C13": ("model_checking",
          "The raw InterpreterMonitor callback stream of every recorded step() of both engines (all campaign cases incl. error, cancel and top-level-final runs) is checked by TLC against a chart-independent specification of the callback protocol (bracket nesting, phase order exits<=transitions<=entries, stable notice once per macrostep) and cross-checked against the logger, the queue wrappers and getConfiguration().",
          "5 C13", "TLC trace validation of raw callback streams against the Monitor protocol specification (Trace_Monitor)"),
+ "C20": ("exploration",
+         "Every (document, back-end) is transpiled in six process environments (two separate processes, ASLR off, allocator perturbation, cold and warm cache files in another TMPDIR); TLC checks that the digest is a function of (document, back-end) (Determinism.tla). Interpreter traces of the same cases recorded in two environments are compared by Lockstep. Only non-determinism that one of the enumerated environments provokes can be seen.",
+         "5 C20", "TLC functional-dependence check over observations from several process environments (Determinism) + Lockstep"),
  "C17": ("exploration",
          "TLC enumerates expression ASTs up to depth 2 with the value the TLA+ evaluator PromelaExpr!Eval defines (C integer semantics) and renders each with minimal and full parentheses; every vector is evaluated by evalAsData/evalAsBool of a live promela-datamodel interpreter in forked children (a crash is an outcome).",
          "5 C17", "TLC-generated oracle table (MC_PromelaExpr) replayed through the implementation"),
